@@ -8,6 +8,7 @@
 //   - getFromAPI: the status -> error-type chain, the OK status, the catch-all type, whether
 //     Limiter.Wait precedes client.Do and whether a Wait error returns, the HTTP method;
 //   - NotFound's asserted type, baseURL's default.
+//
 // Every construct outside the recognised shapes is a translator error (= broken obligation).
 // usage: osmapi <repo> <outdir>
 package main
@@ -57,7 +58,7 @@ type ctx struct {
 	tvar    string            // variable holding the decoded value
 	guards  map[string]string // field -> "Some (op, n)"
 	ret     string
-	inOpt   bool // translating an option's apply method (o.n, o.t allowed)
+	inOpt   bool   // translating an option's apply method (o.n, o.t allowed)
 	helper  bool   // translating the body of an inlined unexported helper
 	hret    string // its returned string expression
 	depth   int
@@ -431,8 +432,10 @@ func (c *ctx) notFirst(e ast.Expr, iname string) bool {
 }
 
 // idLoopBody recognises the body of the id-list loop
-//   if <i is not the first> { buf = append(buf, <separator byte>) }
-//   buf = strconv.AppendInt(buf, <the i-th id as int64>, 10)
+//
+//	if <i is not the first> { buf = append(buf, <separator byte>) }
+//	buf = strconv.AppendInt(buf, <the i-th id as int64>, 10)
+//
 // and returns the buffer variable and the separator
 func (c *ctx) idLoopBody(x ast.Node, body []ast.Stmt, iname string, isID func(ast.Expr) bool) (string, string) {
 	if len(body) != 2 {
@@ -486,6 +489,62 @@ func (c *ctx) idLoopBody(x ast.Node, body []ast.Stmt, iname string, isID func(as
 		fail(c.p, x, "id loop: buffer already filled")
 	}
 	return buf.Name, string(rune(sepv))
+}
+
+// peeledIDLoop recognises  buf = AppendInt(buf, <ids[0]>, 10); for _, id := range ids[1:] { buf = append(buf, sep); buf = AppendInt(buf, <id>, 10) }
+func (c *ctx) peeledIDLoop(body []ast.Stmt, ids string, pi int) (string, string, bool) {
+	appendInt := func(s ast.Stmt, isID func(ast.Expr) bool) (string, bool) {
+		as, ok := s.(*ast.AssignStmt)
+		if !ok || len(as.Lhs) != 1 || len(as.Rhs) != 1 {
+			return "", false
+		}
+		ai, ok := isCall(as.Rhs[0], "strconv", "AppendInt")
+		if !ok || len(ai.Args) != 3 || render(c.p, ai.Args[0]) != render(c.p, as.Lhs[0]) || !isID(ai.Args[1]) {
+			return "", false
+		}
+		if z, ok := c.constInt(ai.Args[2]); !ok || z != "10" {
+			return "", false
+		}
+		return render(c.p, as.Lhs[0]), true
+	}
+	conv := func(e ast.Expr) ast.Expr {
+		if cv, ok := isFunc(e, "int64"); ok && len(cv.Args) == 1 {
+			return cv.Args[0]
+		}
+		return e
+	}
+	buf, ok := appendInt(body[0], func(e ast.Expr) bool { return render(c.p, conv(e)) == ids+"[0]" })
+	if !ok || c.env[buf].kind != "bytes" || c.env[buf].text != "" {
+		return "", "", false
+	}
+	rs, ok := body[1].(*ast.RangeStmt)
+	if !ok || render(c.p, rs.X) != ids+"[1:]" || len(rs.Body.List) != 2 {
+		return "", "", false
+	}
+	v, _ := rs.Value.(*ast.Ident)
+	if v == nil {
+		return "", "", false
+	}
+	as, ok := rs.Body.List[0].(*ast.AssignStmt)
+	if !ok || len(as.Lhs) != 1 || len(as.Rhs) != 1 || render(c.p, as.Lhs[0]) != buf {
+		return "", "", false
+	}
+	ce, ok := isFunc(as.Rhs[0], "append")
+	if !ok || len(ce.Args) != 2 || render(c.p, ce.Args[0]) != buf {
+		return "", "", false
+	}
+	tv := c.p.Info.Types[ce.Args[1]]
+	if tv.Value == nil || tv.Value.Kind() != constant.Int {
+		return "", "", false
+	}
+	sepv, _ := constant.Int64Val(tv.Value)
+	if sepv < 32 || sepv > 126 {
+		return "", "", false
+	}
+	if b2, ok := appendInt(rs.Body.List[1], func(e ast.Expr) bool { return render(c.p, conv(e)) == v.Name }); !ok || b2 != buf {
+		return "", "", false
+	}
+	return buf, string(rune(sepv)), true
 }
 
 // forStmt recognises the index form of the id-list loop:  for i := 0; i < n; i++ { ... }
@@ -662,9 +721,11 @@ func terminates(b []ast.Stmt) bool {
 }
 
 // flatten rewrites control flow into the early-return form the readers below understand:
-//   if A { ...return } else { rest }   ==>  if A { ...return }; rest
-//   if A { ...return } else if B ...   ==>  if A { ...return }; if B ...
-//   switch { case A: ...return; case B: ...return; default: rest }  ==>  if A {...}; if B {...}; rest
+//
+//	if A { ...return } else { rest }   ==>  if A { ...return }; rest
+//	if A { ...return } else if B ...   ==>  if A { ...return }; if B ...
+//	switch { case A: ...return; case B: ...return; default: rest }  ==>  if A {...}; if B {...}; rest
+//
 // (only when the earlier branches always return, so that falling through is the same thing)
 func flatten(list []ast.Stmt) []ast.Stmt {
 	var out []ast.Stmt
@@ -942,11 +1003,13 @@ func (c *ctx) ifStmt(x *ast.IfStmt) {
 					fail(c.p, x, "second getFromAPI call")
 				}
 				c.urlExpr = c.strExpr(ce.Args[1])
-				ue, ok := ce.Args[2].(*ast.UnaryExpr)
-				if !ok || ue.Op != token.AND {
-					fail(c.p, x, "getFromAPI item argument")
+				// the decode target: the fresh pointer itself (o) or a pointer to it (&o);
+				// encoding/xml follows either to the same struct
+				itemArg := ce.Args[2]
+				if ue, ok := itemArg.(*ast.UnaryExpr); ok && ue.Op == token.AND {
+					itemArg = ue.X
 				}
-				id, ok := ue.X.(*ast.Ident)
+				id, ok := itemArg.(*ast.Ident)
 				if !ok || c.env[id.Name].kind != "target" {
 					fail(c.p, x, "getFromAPI item argument is not a fresh osm.OSM / osm.Change")
 				}
@@ -994,6 +1057,21 @@ func (c *ctx) ifStmt(x *ast.IfStmt) {
 								return
 							}
 						}
+					}
+				}
+			}
+		}
+	}
+	// the id-list loop with its first iteration peeled off:
+	//   if len(ids) > 0 { buf = AppendInt(buf, int64(ids[0]), 10)
+	//                     for _, id := range ids[1:] { buf = append(buf, sep); buf = AppendInt(buf, int64(id), 10) } }
+	if x.Init == nil && x.Else == nil && len(x.Body.List) == 2 {
+		if arg, ok := c.nonEmpty(x.Cond); ok {
+			if idl, ok := arg.(*ast.Ident); ok {
+				if pi, ok := c.params[idl.Name]; ok && c.pkinds[pi] == "ids" {
+					if buf, sep, ok := c.peeledIDLoop(x.Body.List, idl.Name, pi); ok {
+						c.env[buf] = sym{kind: "str", text: fmt.Sprintf("(EIdList %d %s)", pi, q(sep))}
+						return
 					}
 				}
 			}
@@ -1412,7 +1490,9 @@ func rangeGuard(c *ctx, e ast.Expr) (lo, hi string, ok bool) {
 // ---------- featureOptions ----------
 
 // optionLoop recognises the loop that lets every option append its parameter:
-//   for _, o := range opts { L, err = o.<method>(L); if err != nil { return ..., err } }
+//
+//	for _, o := range opts { L, err = o.<method>(L); if err != nil { return ..., err } }
+//
 // also with an index (for i := range opts / for i := 0; i < len(opts); i++, receiver opts[i]) and
 // with the assignment folded into the if statement.  Returns the list variable L.
 func optionLoop(p *tr.Pkg, s ast.Stmt, optsName, method string) (string, bool) {
@@ -1576,7 +1656,7 @@ type apiStep struct {
 }
 
 type apiInfo struct {
-	steps []apiStep
+	steps        []apiStep
 	rules        [][2]string // code, type
 	okCode       string
 	otherType    string
@@ -1691,261 +1771,497 @@ func translateGetFromAPI(p *tr.Pkg, decls map[string]*ast.FuncDecl) apiInfo {
 		return ok && se.Sel.Name == "StatusCode"
 	}
 	sawOther, sawSwitch, decodeInCase := false, false, false
-	for _, s := range flatten(fd.Body.List) {
-		switch x := s.(type) {
-		case *ast.IfStmt:
-			// limiter block
-			found := false
-			ast.Inspect(x, func(n ast.Node) bool {
-				if ce, ok := n.(*ast.CallExpr); ok {
-					if se, ok := ce.Fun.(*ast.SelectorExpr); ok && se.Sel.Name == "Wait" {
-						waitPos = ce.Pos()
-						found = true
-					}
+	// unexportedCallee: the declaration behind f(...) / ds.f(...) when f is an unexported function
+	// or Datasource method of the package
+	unexportedCallee := func(ce *ast.CallExpr) *ast.FuncDecl {
+		switch f := ce.Fun.(type) {
+		case *ast.Ident:
+			if !ast.IsExported(f.Name) {
+				if d := decls[f.Name]; d != nil && d.Recv == nil {
+					return d
 				}
-				return true
-			})
-			if found {
-				be, ok := x.Cond.(*ast.BinaryExpr)
-				if !ok || be.Op != token.NEQ || render(p, be.X) != "ds.Limiter" || render(p, be.Y) != "nil" {
-					fail(p, x, "getFromAPI: limiter block is not guarded by ds.Limiter != nil")
-				}
-				// err := ds.Limiter.Wait(ctx); if err != nil { return err }   or the if-init form
-				nWait := 0
-				ast.Inspect(x.Body, func(n ast.Node) bool {
-					if ce, ok := n.(*ast.CallExpr); ok {
-						if render(p, ce) != "ds.Limiter.Wait(ctx)" {
-							fail(p, ce, "getFromAPI: call other than ds.Limiter.Wait(ctx) in the limiter block")
-						}
-						nWait++
-						claimed[ce.Pos()] = true
-					}
-					return true
-				})
-				stops := false
-				for _, t := range flatten(x.Body.List) {
-					if isErrReturn(t) {
-						stops = true
-					} else if is2, ok := t.(*ast.IfStmt); ok && is2.Init != nil {
-						y := *is2
-						y.Init = nil
-						if isErrReturn(&y) {
-							stops = true
-						}
-					}
-				}
-				if nWait != 1 || len(x.Body.List) > 2 || x.Else != nil {
-					fail(p, x, "getFromAPI: limiter block is not one Wait and its error return")
-				}
-				a.waitErrStops = stops
-				addStep("SWait", "true", b2s(stops))
-				continue
 			}
-			if op, code, ok := statusCmp(x.Cond); ok && (x.Init == nil || isAliasInit(x.Init)) && x.Else == nil && len(x.Body.List) == 1 {
-				rs, ok := x.Body.List[0].(*ast.ReturnStmt)
-				if !ok {
-					fail(p, x, "getFromAPI: status block does not return")
+		case *ast.SelectorExpr:
+			if render(p, f.X) == "ds" && !ast.IsExported(f.Sel.Name) {
+				if d := decls["Datasource."+f.Sel.Name]; d != nil && len(d.Recv.List[0].Names) == 1 && d.Recv.List[0].Names[0].Name == "ds" {
+					return d
 				}
-				emitStatus()
-				t := retType(rs)
-				if t == "" {
-					fail(p, x, "getFromAPI: status block does not return &T{...}")
-				}
-				switch op {
-				case token.EQL:
-					if sawOther {
-						fail(p, x, "getFromAPI: status rule after the catch-all")
+			}
+		}
+		return nil
+	}
+	paramNames := func(d *ast.FuncDecl) []string {
+		var l []string
+		for _, f := range d.Type.Params.List {
+			for _, n := range f.Names {
+				l = append(l, n.Name)
+			}
+		}
+		return l
+	}
+	// waitHelper: a helper that is the limiter block: its only call is ds.Limiter.Wait(ctx) (ctx
+	// passed through), reached only when ds.Limiter != nil, its error is what the helper returns
+	waitHelper := func(d *ast.FuncDecl, ce *ast.CallExpr) bool {
+		pn := paramNames(d)
+		if len(pn) != 1 || len(ce.Args) != 1 || render(p, ce.Args[0]) != "ctx" {
+			return false
+		}
+		want := "ds.Limiter.Wait(" + pn[0] + ")"
+		n, guarded := 0, false
+		bad := false
+		var walk func(l []ast.Stmt, underNonNil bool)
+		walk = func(l []ast.Stmt, underNonNil bool) {
+			nilReturned := false
+			for _, st := range l {
+				under := underNonNil || nilReturned
+				switch y := st.(type) {
+				case *ast.IfStmt:
+					c := strings.Join(strings.Fields(render(p, y.Cond)), " ")
+					switch {
+					case (c == "ds.Limiter == nil" || c == "nil == ds.Limiter") && y.Init == nil && y.Else == nil && len(y.Body.List) == 1 && render(p, y.Body.List[0]) == "return nil":
+						nilReturned = true
+					case (c == "ds.Limiter != nil" || c == "nil != ds.Limiter") && y.Init == nil && y.Else == nil:
+						walk(y.Body.List, true)
+					case c == "err != nil" && y.Else == nil:
+						if y.Init != nil {
+							if hasCall(y.Init) {
+								if !strings.Contains(render(p, y.Init), want) {
+									bad = true
+								} else {
+									n++
+									guarded = guarded || under
+								}
+							}
+						}
+						if len(y.Body.List) != 1 || render(p, y.Body.List[0]) != "return err" {
+							bad = true
+						}
+					default:
+						bad = true
 					}
-					a.rules = append(a.rules, [2]string{code, t})
-				case token.NEQ:
-					if sawOther {
-						fail(p, x, "getFromAPI: two catch-all status rules")
+				case *ast.AssignStmt:
+					if hasCall(y) {
+						if len(y.Rhs) != 1 || render(p, y.Rhs[0]) != want {
+							bad = true
+						} else {
+							n++
+							guarded = guarded || under
+						}
 					}
-					sawOther = true
-					a.okCode, a.otherType = code, t
+				case *ast.ReturnStmt:
+					r := render(p, y)
+					switch {
+					case r == "return nil" || r == "return err":
+					case r == "return "+want:
+						n++
+						guarded = guarded || under
+					default:
+						bad = true
+					}
 				default:
-					fail(p, x, "getFromAPI: unsupported status comparison")
+					bad = true
 				}
-				continue
 			}
-			// if err != nil { return err }: the error of the preceding NewRequest / Do returns
-			if isErrReturn(x) {
-				if n := len(a.steps); n > 0 && (a.steps[n-1].kind == "SNewRequest" || a.steps[n-1].kind == "SDo") && a.steps[n-1].b == "false" {
-					a.steps[n-1].b = "true"
+		}
+		walk(d.Body.List, false)
+		return !bad && n == 1 && guarded
+	}
+	// statusTable: a package-level map literal  status code -> func(url string) error { return &T{...} }
+	statusTable := func(name string) ([][2]string, bool) {
+		for _, f := range p.Files {
+			for _, dd := range f.Decls {
+				gd, ok := dd.(*ast.GenDecl)
+				if !ok || gd.Tok != token.VAR {
 					continue
 				}
-				fail(p, x, "getFromAPI: error return that does not follow NewRequest / Do")
-			}
-			// if client == nil { client = <no call> }: choice of the client, no effect
-			if be, ok := x.Cond.(*ast.BinaryExpr); ok && be.Op == token.EQL && render(p, be.X) == "client" && render(p, be.Y) == "nil" && x.Else == nil && x.Init == nil {
-				for _, t := range x.Body.List {
-					as, ok := t.(*ast.AssignStmt)
-					if !ok || len(as.Lhs) != 1 || render(p, as.Lhs[0]) != "client" || hasCall(as) {
-						fail(p, t, "getFromAPI: the client fallback does something other than choosing a client")
-					}
-				}
-				continue
-			}
-			fail(p, x, "getFromAPI: unsupported if statement %s", render(p, x))
-		case *ast.SwitchStmt:
-			tagOK := false
-			if se, ok := x.Tag.(*ast.SelectorExpr); ok && se.Sel.Name == "StatusCode" {
-				tagOK = true
-			} else if id, ok := x.Tag.(*ast.Ident); ok && statusAlias[id.Name] {
-				tagOK = true
-			}
-			if !tagOK || (x.Init != nil && !isAliasInit(x.Init)) {
-				fail(p, x, "getFromAPI: switch on something other than the status code")
-			}
-			if sawOther {
-				fail(p, x, "getFromAPI: status switch after the catch-all")
-			}
-			emitStatus()
-			for _, cl := range x.Body.List {
-				cc := cl.(*ast.CaseClause)
-				body := cc.Body
-				if len(body) == 1 {
-					if bs, ok := body[0].(*ast.BranchStmt); ok && bs.Tok == token.BREAK && bs.Label == nil {
-						body = nil
-					}
-				}
-				if len(body) == 1 && cc.List != nil {
-					if rs, ok := body[0].(*ast.ReturnStmt); ok && strings.Contains(render(p, rs), "xml.NewDecoder(resp.Body).Decode(item)") {
-						// case http.StatusOK: return xml.NewDecoder(resp.Body).Decode(item)
-						if len(cc.List) != 1 || a.okCode != "" {
-							fail(p, cc, "getFromAPI: the decoding case must be the single success status")
-						}
-						tv := p.Info.Types[cc.List[0]]
-						if tv.Value == nil || tv.Value.Kind() != constant.Int {
-							fail(p, cc, "getFromAPI: non-constant status case")
-						}
-						a.okCode = tv.Value.ExactString()
-						a.decodes = true
-						decodeInCase = true
-						claim(rs)
-						addStep("SDecode", "", "")
+				for _, sp := range gd.Specs {
+					vs := sp.(*ast.ValueSpec)
+					if len(vs.Names) != 1 || vs.Names[0].Name != name || len(vs.Values) != 1 {
 						continue
 					}
-				}
-				if cc.List == nil { // default
-					if len(body) != 1 {
-						fail(p, cc, "getFromAPI: default case does not return")
+					cl, ok := vs.Values[0].(*ast.CompositeLit)
+					if !ok {
+						return nil, false
 					}
-					rs, ok := body[0].(*ast.ReturnStmt)
-					if !ok || retType(rs) == "" {
-						fail(p, cc, "getFromAPI: default case does not return &T{...}")
-					}
-					a.otherType = retType(rs)
-					sawOther = true
-					continue
-				}
-				for _, v := range cc.List {
-					tv := p.Info.Types[v]
-					if tv.Value == nil || tv.Value.Kind() != constant.Int {
-						fail(p, cc, "getFromAPI: non-constant status case")
-					}
-					code := tv.Value.ExactString()
-					if len(body) == 0 {
-						if a.okCode != "" {
-							fail(p, cc, "getFromAPI: two success statuses")
+					var rules [][2]string
+					for _, el := range cl.Elts {
+						kv, ok := el.(*ast.KeyValueExpr)
+						if !ok {
+							return nil, false
 						}
+						tv := p.Info.Types[kv.Key]
+						fl, isFn := kv.Value.(*ast.FuncLit)
+						if tv.Value == nil || tv.Value.Kind() != constant.Int || !isFn || len(fl.Body.List) != 1 {
+							return nil, false
+						}
+						rs, ok := fl.Body.List[0].(*ast.ReturnStmt)
+						if !ok || retType(rs) == "" {
+							return nil, false
+						}
+						rules = append(rules, [2]string{tv.Value.ExactString(), retType(rs)})
+					}
+					// the table must not be written anywhere else in the package
+					written := false
+					for _, f2 := range p.Files {
+						ast.Inspect(f2, func(n ast.Node) bool {
+							if as, ok := n.(*ast.AssignStmt); ok {
+								for _, l := range as.Lhs {
+									if strings.HasPrefix(render(p, l), name+"[") || render(p, l) == name {
+										written = true
+									}
+								}
+							}
+							if ce, ok := n.(*ast.CallExpr); ok && len(ce.Args) > 0 && render(p, ce.Fun) == "delete" && render(p, ce.Args[0]) == name {
+								written = true
+							}
+							if ue, ok := n.(*ast.UnaryExpr); ok && ue.Op == token.AND && render(p, ue.X) == name {
+								written = true // its address escapes
+							}
+							return true
+						})
+					}
+					return rules, !written
+				}
+			}
+		}
+		return nil, false
+	}
+	var readStmts func(list []ast.Stmt, helper bool)
+	readStmts = func(list []ast.Stmt, helper bool) {
+		for _, s := range flatten(list) {
+			switch x := s.(type) {
+			case *ast.IfStmt:
+				// if err := <unexported helper>(...); err != nil { return err }: read the helper in place
+				if x.Init != nil && x.Else == nil {
+					if as, ok := x.Init.(*ast.AssignStmt); ok && len(as.Lhs) == 1 && len(as.Rhs) == 1 && render(p, as.Lhs[0]) == "err" {
+						if ce, ok := as.Rhs[0].(*ast.CallExpr); ok {
+							y := *x
+							y.Init = nil
+							if d := unexportedCallee(ce); d != nil && isErrReturn(&y) {
+								if waitHelper(d, ce) {
+									claimed[ce.Pos()] = true
+									waitPos = ce.Pos()
+									a.waitErrStops = true
+									addStep("SWait", "true", "true")
+									continue
+								}
+								// a helper given the status code: the status chain lives there
+								pn := paramNames(d)
+								isStatusHelper := false
+								if len(pn) == len(ce.Args) && !hasCallOtherThanTable(p, d) {
+									for i, arg := range ce.Args {
+										if se, ok := arg.(*ast.SelectorExpr); (ok && se.Sel.Name == "StatusCode") || statusAlias[render(p, arg)] {
+											statusAlias[pn[i]] = true
+											isStatusHelper = true
+										}
+									}
+								}
+								if isStatusHelper {
+									claimed[ce.Pos()] = true
+									readStmts(d.Body.List, true)
+									continue
+								}
+							}
+						}
+					}
+				}
+				// if f, ok := TABLE[code]; ok { return f(url) }: the rules of a status table
+				if x.Init != nil && x.Else == nil && len(x.Body.List) == 1 {
+					if as, ok := x.Init.(*ast.AssignStmt); ok && len(as.Lhs) == 2 && len(as.Rhs) == 1 && render(p, x.Cond) == render(p, as.Lhs[1]) {
+						if ie, ok := as.Rhs[0].(*ast.IndexExpr); ok && statusAlias[render(p, ie.Index)] {
+							rs, isRet := x.Body.List[0].(*ast.ReturnStmt)
+							if tname, isID := ie.X.(*ast.Ident); isID && isRet && len(rs.Results) == 1 {
+								if call, ok := rs.Results[0].(*ast.CallExpr); ok && render(p, call.Fun) == render(p, as.Lhs[0]) {
+									rules, ok := statusTable(tname.Name)
+									if !ok || sawOther {
+										fail(p, x, "getFromAPI: status table %s is not a constant map of code -> func returning a typed error", tname.Name)
+									}
+									emitStatus()
+									a.rules = append(a.rules, rules...)
+									claim(rs)
+									continue
+								}
+							}
+						}
+					}
+				}
+				// if <status> == OK { return nil }  in a status helper: the success status
+				if helper {
+					if op, code, ok := statusCmp(x.Cond); ok && op == token.EQL && x.Init == nil && x.Else == nil && len(x.Body.List) == 1 && render(p, x.Body.List[0]) == "return nil" {
+						if a.okCode != "" {
+							fail(p, x, "getFromAPI: two success statuses")
+						}
+						emitStatus()
 						a.okCode = code
 						continue
 					}
-					rs, ok := body[0].(*ast.ReturnStmt)
-					if !ok || len(body) != 1 || retType(rs) == "" {
-						fail(p, cc, "getFromAPI: status case does not return &T{...}")
-					}
-					a.rules = append(a.rules, [2]string{code, retType(rs)})
 				}
-			}
-			if a.okCode == "" {
-				fail(p, x, "getFromAPI: status switch without a success case")
-			}
-			if !sawOther && !decodeInCase {
-				// success falls out of the switch: the catch-all must be inside it
-				fail(p, x, "getFromAPI: status switch without a default")
-			}
-			sawSwitch = true
-		case *ast.AssignStmt:
-			if len(x.Rhs) != 1 {
-				fail(p, x, "getFromAPI: unsupported assignment")
-			}
-			rhs := x.Rhs[0]
-			switch {
-			case isAliasInit(x):
-			case len(x.Lhs) == 1 && render(p, x.Lhs[0]) == "client" && isClientChooser(p, decls, rhs):
-				// client := ds.httpClient(): a helper that only chooses among clients
-				claim(rhs)
-			case !hasCall(x):
-				// choice of the client: client := ds.Client, client = DefaultDatasource.Client, ...
-				if len(x.Lhs) != 1 || render(p, x.Lhs[0]) != "client" {
-					fail(p, x, "getFromAPI: assignment that is neither the client choice nor a request step: %s", render(p, x))
-				}
-			default:
-				if ce, ok := isCall(rhs, "http", "NewRequest"); ok && len(ce.Args) == 3 {
-					tv := p.Info.Types[ce.Args[0]]
-					if tv.Value == nil {
-						fail(p, x, "getFromAPI: HTTP method not constant")
+				// limiter block
+				found := false
+				ast.Inspect(x, func(n ast.Node) bool {
+					if ce, ok := n.(*ast.CallExpr); ok {
+						if se, ok := ce.Fun.(*ast.SelectorExpr); ok && se.Sel.Name == "Wait" {
+							waitPos = ce.Pos()
+							found = true
+						}
 					}
-					a.httpMethod = constant.StringVal(tv.Value)
-					if render(p, ce.Args[1]) != "url" || render(p, ce.Args[2]) != "nil" || hasCall(ce.Args[1]) {
-						fail(p, x, "getFromAPI: request is not NewRequest(<method>, url, nil)")
+					return true
+				})
+				if found {
+					be, ok := x.Cond.(*ast.BinaryExpr)
+					if !ok || be.Op != token.NEQ || render(p, be.X) != "ds.Limiter" || render(p, be.Y) != "nil" {
+						fail(p, x, "getFromAPI: limiter block is not guarded by ds.Limiter != nil")
 					}
-					if len(x.Lhs) != 2 || render(p, x.Lhs[0]) != "req" {
-						fail(p, x, "getFromAPI: NewRequest result is not kept as req, err")
+					// err := ds.Limiter.Wait(ctx); if err != nil { return err }   or the if-init form
+					nWait := 0
+					ast.Inspect(x.Body, func(n ast.Node) bool {
+						if ce, ok := n.(*ast.CallExpr); ok {
+							if render(p, ce) != "ds.Limiter.Wait(ctx)" {
+								fail(p, ce, "getFromAPI: call other than ds.Limiter.Wait(ctx) in the limiter block")
+							}
+							nWait++
+							claimed[ce.Pos()] = true
+						}
+						return true
+					})
+					stops := false
+					for _, t := range flatten(x.Body.List) {
+						if isErrReturn(t) {
+							stops = true
+						} else if is2, ok := t.(*ast.IfStmt); ok && is2.Init != nil {
+							y := *is2
+							y.Init = nil
+							if isErrReturn(&y) {
+								stops = true
+							}
+						}
 					}
-					claimed[ce.Pos()] = true
-					addStep("SNewRequest", q(a.httpMethod), "false")
-				} else if ce, ok := isCall(rhs, "client", "Do"); ok && len(ce.Args) == 1 {
-					withCtx := false
-					switch render(p, ce.Args[0]) {
-					case "req.WithContext(ctx)":
-						withCtx = true
-						claim(ce.Args[0])
-					case "req":
-					default:
-						fail(p, x, "getFromAPI: client.Do of something other than req / req.WithContext(ctx)")
+					if nWait != 1 || len(x.Body.List) > 2 || x.Else != nil {
+						fail(p, x, "getFromAPI: limiter block is not one Wait and its error return")
 					}
-					if len(x.Lhs) != 2 || render(p, x.Lhs[0]) != "resp" {
-						fail(p, x, "getFromAPI: Do result is not kept as resp, err")
-					}
-					doPos = ce.Pos()
-					claimed[ce.Pos()] = true
-					addStep("SDo", b2s(withCtx), "false")
-				} else {
-					fail(p, x, "getFromAPI: call outside the modelled effects: %s", render(p, x))
-				}
-			}
-		case *ast.DeferStmt:
-			if render(p, x.Call) != "resp.Body.Close()" {
-				fail(p, x, "getFromAPI: defer of something other than resp.Body.Close()")
-			}
-			claimed[x.Call.Pos()] = true
-			addStep("SClose", "", "")
-		case *ast.ReturnStmt:
-			if decodeInCase {
-				// every status without a case falls out of the switch: the catch-all
-				if t := retType(x); t != "" && !sawOther && sawSwitch {
-					a.otherType = t
-					sawOther = true
+					a.waitErrStops = stops
+					addStep("SWait", "true", b2s(stops))
 					continue
 				}
-				fail(p, x, "getFromAPI: statement after a switch that already decodes")
+				if op, code, ok := statusCmp(x.Cond); ok && (x.Init == nil || isAliasInit(x.Init)) && x.Else == nil && len(x.Body.List) == 1 {
+					rs, ok := x.Body.List[0].(*ast.ReturnStmt)
+					if !ok {
+						fail(p, x, "getFromAPI: status block does not return")
+					}
+					emitStatus()
+					t := retType(rs)
+					if t == "" {
+						fail(p, x, "getFromAPI: status block does not return &T{...}")
+					}
+					switch op {
+					case token.EQL:
+						if sawOther {
+							fail(p, x, "getFromAPI: status rule after the catch-all")
+						}
+						a.rules = append(a.rules, [2]string{code, t})
+					case token.NEQ:
+						if sawOther {
+							fail(p, x, "getFromAPI: two catch-all status rules")
+						}
+						sawOther = true
+						a.okCode, a.otherType = code, t
+					default:
+						fail(p, x, "getFromAPI: unsupported status comparison")
+					}
+					continue
+				}
+				// if err != nil { return err }: the error of the preceding NewRequest / Do returns
+				if isErrReturn(x) {
+					if n := len(a.steps); n > 0 && (a.steps[n-1].kind == "SNewRequest" || a.steps[n-1].kind == "SDo") && a.steps[n-1].b == "false" {
+						a.steps[n-1].b = "true"
+						continue
+					}
+					fail(p, x, "getFromAPI: error return that does not follow NewRequest / Do")
+				}
+				// if client == nil { client = <no call> }: choice of the client, no effect
+				if be, ok := x.Cond.(*ast.BinaryExpr); ok && be.Op == token.EQL && render(p, be.X) == "client" && render(p, be.Y) == "nil" && x.Else == nil && x.Init == nil {
+					for _, t := range x.Body.List {
+						as, ok := t.(*ast.AssignStmt)
+						if !ok || len(as.Lhs) != 1 || render(p, as.Lhs[0]) != "client" || hasCall(as) {
+							fail(p, t, "getFromAPI: the client fallback does something other than choosing a client")
+						}
+					}
+					continue
+				}
+				fail(p, x, "getFromAPI: unsupported if statement %s", render(p, x))
+			case *ast.SwitchStmt:
+				tagOK := false
+				if se, ok := x.Tag.(*ast.SelectorExpr); ok && se.Sel.Name == "StatusCode" {
+					tagOK = true
+				} else if id, ok := x.Tag.(*ast.Ident); ok && statusAlias[id.Name] {
+					tagOK = true
+				}
+				if !tagOK || (x.Init != nil && !isAliasInit(x.Init)) {
+					fail(p, x, "getFromAPI: switch on something other than the status code")
+				}
+				if sawOther {
+					fail(p, x, "getFromAPI: status switch after the catch-all")
+				}
+				emitStatus()
+				for _, cl := range x.Body.List {
+					cc := cl.(*ast.CaseClause)
+					body := cc.Body
+					if len(body) == 1 {
+						if bs, ok := body[0].(*ast.BranchStmt); ok && bs.Tok == token.BREAK && bs.Label == nil {
+							body = nil
+						}
+					}
+					if len(body) == 1 && cc.List != nil {
+						if rs, ok := body[0].(*ast.ReturnStmt); ok && strings.Contains(render(p, rs), "xml.NewDecoder(resp.Body).Decode(item)") {
+							// case http.StatusOK: return xml.NewDecoder(resp.Body).Decode(item)
+							if len(cc.List) != 1 || a.okCode != "" {
+								fail(p, cc, "getFromAPI: the decoding case must be the single success status")
+							}
+							tv := p.Info.Types[cc.List[0]]
+							if tv.Value == nil || tv.Value.Kind() != constant.Int {
+								fail(p, cc, "getFromAPI: non-constant status case")
+							}
+							a.okCode = tv.Value.ExactString()
+							a.decodes = true
+							decodeInCase = true
+							claim(rs)
+							addStep("SDecode", "", "")
+							continue
+						}
+					}
+					if cc.List == nil { // default
+						if len(body) != 1 {
+							fail(p, cc, "getFromAPI: default case does not return")
+						}
+						rs, ok := body[0].(*ast.ReturnStmt)
+						if !ok || retType(rs) == "" {
+							fail(p, cc, "getFromAPI: default case does not return &T{...}")
+						}
+						a.otherType = retType(rs)
+						sawOther = true
+						continue
+					}
+					for _, v := range cc.List {
+						tv := p.Info.Types[v]
+						if tv.Value == nil || tv.Value.Kind() != constant.Int {
+							fail(p, cc, "getFromAPI: non-constant status case")
+						}
+						code := tv.Value.ExactString()
+						if len(body) == 0 {
+							if a.okCode != "" {
+								fail(p, cc, "getFromAPI: two success statuses")
+							}
+							a.okCode = code
+							continue
+						}
+						rs, ok := body[0].(*ast.ReturnStmt)
+						if !ok || len(body) != 1 || retType(rs) == "" {
+							fail(p, cc, "getFromAPI: status case does not return &T{...}")
+						}
+						a.rules = append(a.rules, [2]string{code, retType(rs)})
+					}
+				}
+				if a.okCode == "" {
+					fail(p, x, "getFromAPI: status switch without a success case")
+				}
+				if !sawOther && !decodeInCase {
+					// success falls out of the switch: the catch-all must be inside it
+					fail(p, x, "getFromAPI: status switch without a default")
+				}
+				sawSwitch = true
+			case *ast.AssignStmt:
+				if len(x.Rhs) != 1 {
+					fail(p, x, "getFromAPI: unsupported assignment")
+				}
+				rhs := x.Rhs[0]
+				switch {
+				case isAliasInit(x):
+				case len(x.Lhs) == 1 && render(p, x.Lhs[0]) == "client" && isClientChooser(p, decls, rhs):
+					// client := ds.httpClient(): a helper that only chooses among clients
+					claim(rhs)
+				case !hasCall(x):
+					// choice of the client: client := ds.Client, client = DefaultDatasource.Client, ...
+					if len(x.Lhs) != 1 || render(p, x.Lhs[0]) != "client" {
+						fail(p, x, "getFromAPI: assignment that is neither the client choice nor a request step: %s", render(p, x))
+					}
+				default:
+					if ce, ok := isCall(rhs, "http", "NewRequest"); ok && len(ce.Args) == 3 {
+						tv := p.Info.Types[ce.Args[0]]
+						if tv.Value == nil {
+							fail(p, x, "getFromAPI: HTTP method not constant")
+						}
+						a.httpMethod = constant.StringVal(tv.Value)
+						if render(p, ce.Args[1]) != "url" || render(p, ce.Args[2]) != "nil" || hasCall(ce.Args[1]) {
+							fail(p, x, "getFromAPI: request is not NewRequest(<method>, url, nil)")
+						}
+						if len(x.Lhs) != 2 || render(p, x.Lhs[0]) != "req" {
+							fail(p, x, "getFromAPI: NewRequest result is not kept as req, err")
+						}
+						claimed[ce.Pos()] = true
+						addStep("SNewRequest", q(a.httpMethod), "false")
+					} else if ce, ok := isCall(rhs, "client", "Do"); ok && len(ce.Args) == 1 {
+						withCtx := false
+						switch render(p, ce.Args[0]) {
+						case "req.WithContext(ctx)":
+							withCtx = true
+							claim(ce.Args[0])
+						case "req":
+						default:
+							fail(p, x, "getFromAPI: client.Do of something other than req / req.WithContext(ctx)")
+						}
+						if len(x.Lhs) != 2 || render(p, x.Lhs[0]) != "resp" {
+							fail(p, x, "getFromAPI: Do result is not kept as resp, err")
+						}
+						doPos = ce.Pos()
+						claimed[ce.Pos()] = true
+						addStep("SDo", b2s(withCtx), "false")
+					} else {
+						fail(p, x, "getFromAPI: call outside the modelled effects: %s", render(p, x))
+					}
+				}
+			case *ast.DeferStmt:
+				if render(p, x.Call) != "resp.Body.Close()" {
+					fail(p, x, "getFromAPI: defer of something other than resp.Body.Close()")
+				}
+				claimed[x.Call.Pos()] = true
+				addStep("SClose", "", "")
+			case *ast.ReturnStmt:
+				if helper {
+					// in a status helper: `return nil` = no error for this status; a trailing typed error = the catch-all
+					if render(p, x) == "return nil" {
+						continue
+					}
+					if t := retType(x); t != "" && !sawOther && a.okCode != "" {
+						a.otherType = t
+						sawOther = true
+						continue
+					}
+					fail(p, x, "getFromAPI: unsupported return in a status helper")
+				}
+				if decodeInCase {
+					// every status without a case falls out of the switch: the catch-all
+					if t := retType(x); t != "" && !sawOther && sawSwitch {
+						a.otherType = t
+						sawOther = true
+						continue
+					}
+					fail(p, x, "getFromAPI: statement after a switch that already decodes")
+				}
+				if !sawOther {
+					fail(p, x, "getFromAPI: decode without a non-OK catch-all before it")
+				}
+				if render(p, x) != "return xml.NewDecoder(resp.Body).Decode(item)" {
+					fail(p, x, "getFromAPI: final return is not the XML decode of the body into item")
+				}
+				a.decodes = true
+				claim(x)
+				addStep("SDecode", "", "")
+			default:
+				fail(p, s, "getFromAPI: unsupported statement")
 			}
-			if !sawOther {
-				fail(p, x, "getFromAPI: decode without a non-OK catch-all before it")
-			}
-			if render(p, x) != "return xml.NewDecoder(resp.Body).Decode(item)" {
-				fail(p, x, "getFromAPI: final return is not the XML decode of the body into item")
-			}
-			a.decodes = true
-			claim(x)
-			addStep("SDecode", "", "")
-		default:
-			fail(p, s, "getFromAPI: unsupported statement")
 		}
 	}
+	readStmts(fd.Body.List, false)
 	if !sawOther {
 		fail(p, fd, "getFromAPI: no catch-all for the other statuses")
 	}
@@ -1964,6 +2280,30 @@ func translateGetFromAPI(p *tr.Pkg, decls map[string]*ast.FuncDecl) apiInfo {
 		fail(p, fd, "getFromAPI: no Limiter.Wait call")
 	}
 	return a
+}
+
+// hasCallOtherThanTable: the function calls something other than a local function value (the
+// entry of a status table)
+func hasCallOtherThanTable(p *tr.Pkg, d *ast.FuncDecl) bool {
+	locals := map[string]bool{}
+	ast.Inspect(d.Body, func(n ast.Node) bool {
+		if as, ok := n.(*ast.AssignStmt); ok && as.Tok == token.DEFINE {
+			for _, l := range as.Lhs {
+				locals[render(p, l)] = true
+			}
+		}
+		return true
+	})
+	other := false
+	ast.Inspect(d.Body, func(n ast.Node) bool {
+		if ce, ok := n.(*ast.CallExpr); ok {
+			if id, ok := ce.Fun.(*ast.Ident); !ok || !locals[id.Name] {
+				other = true
+			}
+		}
+		return true
+	})
+	return other
 }
 
 // isClientChooser: a call ds.<unexported>() of a method that does nothing but choose a client:
